@@ -198,6 +198,31 @@ func c08Faults() []fault {
 	add("update-upsert-fails", func(r *rand.Rand, t string, p, a val.Item) []adapt.Op {
 		return one(rawUpdate(t, k(a), "SET w = :v, x = h - :n", nil, val.Item{":v": val.Str("touched"), ":n": val.Num("1")}))
 	})
+	// 6b rejected after the expression was evaluated: key attribute removed / retyped; on the indexed
+	// table and on the table without any index
+	add("update-removes-key-attr", func(r *rand.Rand, t string, p, a val.Item) []adapt.Op {
+		return one(rawUpdate(t, k(p), "SET w = :v REMOVE r", nil, val.Item{":v": val.Str("touched")}))
+	})
+	add("update-retypes-key-attr", func(r *rand.Rand, t string, p, a val.Item) []adapt.Op {
+		return one(rawUpdate(t, k(p), "SET w = :v, h = :n", nil, val.Item{":v": val.Str("touched"), ":n": val.Num("7")}))
+	})
+	add("noindex-table/update-removes-key-attr", func(r *rand.Rand, t string, p, a val.Item) []adapt.Op {
+		return one(rawUpdate("oth08", val.Item{"h": val.Str("o1")}, "SET w = :v REMOVE h", nil, val.Item{":v": val.Str("touched")}))
+	})
+	add("noindex-table/update-retypes-key-attr", func(r *rand.Rand, t string, p, a val.Item) []adapt.Op {
+		return one(rawUpdate("oth08", val.Item{"h": val.Str("o1")}, "SET z = :v, h = :n", nil, val.Item{":v": val.Num("99"), ":n": val.Num("7")}))
+	})
+	add("noindex-table/update-2nd-action-fails", func(r *rand.Rand, t string, p, a val.Item) []adapt.Op {
+		return one(rawUpdate("oth08", val.Item{"h": val.Str("o1")}, "SET z = :v, x = h + :n", nil, val.Item{":v": val.Num("99"), ":n": val.Num("1")}))
+	})
+	add("noindex-table/cond-failed-update", func(r *rand.Rand, t string, p, a val.Item) []adapt.Op {
+		op := rawUpdate("oth08", val.Item{"h": val.Str("o1")}, "SET z = :v", nil, val.Item{":v": val.Num("99")})
+		op.Cond = "attribute_not_exists(h)"
+		return one(op)
+	})
+	add("noindex-table/put-missing-key", func(r *rand.Rand, t string, p, a val.Item) []adapt.Op {
+		return one(adapt.Op{Kind: adapt.OpPut, Table: "oth08", Item: val.Item{"z": val.Num("5")}})
+	})
 	// 7 conditional check failed
 	add("cond-failed/put", func(r *rand.Rand, t string, p, a val.Item) []adapt.Op {
 		c := &refmodel.Cond{Op: "notexists", Args: []refmodel.Operand{{Kind: "path", Path: refmodel.P("h")}}}
@@ -352,6 +377,7 @@ func (p *c08) RunCase(ctx *runner.Ctx) runner.CaseResult {
 		keys.Add(spec.Name, t.KeyOf(present))
 		hist = append(hist, op)
 	}
+	keys.Add(other.Name, val.Item{"h": val.Str("o1")})
 	absent := ixItem("never", "written", "x", "1", 0)
 	keys.Add(spec.Name, t.KeyOf(absent))
 	for i := 0; i < 26; i++ {
